@@ -436,7 +436,7 @@ type upstream struct {
 }
 
 func newUpstream(t hx.TB) *upstream {
-	ln, err := net.Listen("tcp", "127.0.0.1:0")
+	ln, err := hx.Listen("tcp", "127.0.0.1:0")
 	if err != nil {
 		t.Fatalf("listen: %v", err)
 	}
